@@ -302,11 +302,26 @@ def cmd_run(args):
     baseline = total.pop('baseline', None)
     reports = []
     seen = set()
-    # shrink a bounded number of violations, distinct by (check, cls)
+    known = set()
+    kf = os.path.join(core.VERIF_DIR, 'known_findings.jsonl')
+    if os.path.exists(kf):
+        with open(kf) as fh:
+            for line in fh:
+                line = line.strip()
+                if line and not line.startswith('#'):
+                    ent = json.loads(line)
+                    if ent.get('status') == 'known' and ent.get('property') == world.PROP:
+                        known.add(ent.get('sig'))
+    written = 0
+    # shrink a bounded number of violations, distinct by (check, cls, sig); listed known findings
+    # are reported without a replay file and do not use up the budget
     for item in sorted(total.get('violations', []), key=lambda it: it['idx']):
         v = item['violations'][0]
         key = (v['check'], v.get('cls'), v.get('sig'))
-        if key in seen or len(reports) >= args.max_reports:
+        if v.get('sig') in known:
+            reports.append({'idx': item['idx'], 'violation': v, 'replay': None, 'known': True})
+            continue
+        if key in seen or written >= args.max_reports:
             reports.append({'idx': item['idx'], 'violation': v, 'replay': None, 'dup': True})
             continue
         seen.add(key)
@@ -315,6 +330,7 @@ def cmd_run(args):
             continue
         path, final_v = write_replay(world, args.seed, args.tier, hashseed, item, baseline,
                                      do_shrink=not args.no_shrink)
+        written += 1
         reports.append({'idx': item['idx'], 'violation': final_v, 'replay': path})
     total['violations'] = reports
     total['hashseed'] = hashseed
